@@ -278,19 +278,21 @@ Size(p) == CASE p.t \in {"imp", "app"} -> 1 + Size(p.l) + Size(p.r)
 -----------------------------------------------------------------------------
 (* First-order matching of a schematic pattern against an instance.        *)
 (* sigma is a function from a finite set of metavariable ids to patterns.  *)
-NoMatch == [t |-> "nomatch"]
+(* A matching state is [ok, f]: ok = FALSE is failure, f the bindings so far. *)
+EmptyFn == [k \in {} |-> Bot]
+NoMatch == [ok |-> FALSE, f |-> EmptyFn]
+MState(f) == [ok |-> TRUE, f |-> f]
 RECURSIVE MatchG(_, _, _)
-MatchG(pat, ins, sg) ==      \* sg: function id -> pattern, or NoMatch
-  IF sg = NoMatch THEN NoMatch ELSE
-  CASE pat.t = "mv" -> IF pat.i \in DOMAIN sg
-                       THEN (IF sg[pat.i] = ins THEN sg ELSE NoMatch)
-                       ELSE [k \in DOMAIN sg \cup {pat.i} |-> IF k = pat.i THEN ins ELSE sg[k]]
+MatchG(pat, ins, sg) ==
+  IF ~sg.ok THEN NoMatch ELSE
+  CASE pat.t = "mv" -> IF pat.i \in DOMAIN sg.f
+                       THEN (IF sg.f[pat.i] = ins THEN sg ELSE NoMatch)
+                       ELSE MState([k \in DOMAIN sg.f \cup {pat.i} |-> IF k = pat.i THEN ins ELSE sg.f[k]])
     [] pat.t \in {"ev", "sv", "sym"} -> IF pat = ins THEN sg ELSE NoMatch
     [] pat.t \in {"imp", "app"} -> IF ins.t = pat.t THEN MatchG(pat.r, ins.r, MatchG(pat.l, ins.l, sg)) ELSE NoMatch
     [] pat.t \in {"ex", "mu"}   -> IF ins.t = pat.t /\ ins.v = pat.v THEN MatchG(pat.p, ins.p, sg) ELSE NoMatch
     [] OTHER -> NoMatch
-EmptyFn == [k \in {} |-> Bot]
-Match(pat, ins) == MatchG(pat, ins, EmptyFn)
+Match(pat, ins) == MatchG(pat, ins, MState(EmptyFn))
 FnIds(sg)  == LET S == DOMAIN sg IN
               IF S = {} THEN <<>> ELSE
               LET RECURSIVE ToSeq(_)
